@@ -388,3 +388,76 @@ theorem concat_implSound (E : Env) (os ws : List Value) (hp : PairArgs ws os) (h
 
 end D12b
 end CtyModel
+
+namespace CtyModel
+namespace D12b
+open Fn Stdlib C12L Cov
+
+/-- what `Call` (before the declared refinement) can return on mark-free arguments: `cty.DynamicVal`, the unknown
+of the predicted type, or what `Impl` returned -/
+theorem callUnrefined_result_cases (spec : Spec) (tf : TypeFn) (impl : ImplFn) (args : List Value) (u : Value)
+    (hm : ∀ a ∈ args, a.containsMarked = false) (hr : (callUnrefined spec tf impl args).1 = .ok u) :
+    u = Value.unknown .dyn ∨ (∃ rt, tf args = .ok rt ∧ u = Value.unknown rt) ∨ ∃ rt, tf args = .ok rt ∧ impl args rt = .ok u := by
+  rw [callUnrefined_eq] at hr
+  by_cases hc : spec.countOK args.length = true
+  · simp only [hc, if_true] at hr
+    obtain ⟨hta, hia, hua⟩ := unmarked_args hc hm
+    cases hf : firstFail (spec.expand args.length) args with
+    | some kf =>
+      obtain ⟨k, f⟩ := kf
+      rw [hf] at hr
+      cases f with
+      | null => simp at hr
+      | nonconforming => simp at hr
+      | dynamic =>
+        left
+        simp only [Out.ok.injEq, hua] at hr
+        rw [← hr]; rfl
+    | none =>
+      rw [hf] at hr
+      simp only [hta] at hr
+      cases ht : tf args with
+      | err c => rw [ht] at hr; simp at hr
+      | panic w => rw [ht] at hr; simp at hr
+      | unmodelled => rw [ht] at hr; simp at hr
+      | ok rt =>
+        rw [ht] at hr
+        simp only at hr
+        cases hu : (pass2 (spec.expand args.length) args).unknown with
+        | true =>
+          simp only [hu, if_true, Out.ok.injEq, hua] at hr
+          right; left
+          exact ⟨rt, rfl, by rw [← hr]; rfl⟩
+        | false =>
+          simp only [hu, Bool.false_eq_true, if_false, hia] at hr
+          right; right
+          refine ⟨rt, rfl, ?_⟩
+          cases hi : impl args rt with
+          | err c => rw [hi] at hr; simp at hr
+          | panic w => rw [hi] at hr; simp at hr
+          | unmodelled => rw [hi] at hr; simp at hr
+          | ok v =>
+            rw [hi] at hr
+            simp only at hr
+            split at hr
+            · simp at hr
+            · simp only [Out.ok.injEq] at hr
+              have : withUnhandled spec args v = v := by
+                unfold withUnhandled; simp [hua]
+              rw [this] at hr
+              rw [hr]
+  · simp [hc] at hr
+
+theorem numRangeResult_unmarked (lo hi : Option Num) : (Value.numRangeResult lo hi).v.isMarked = false := by
+  unfold Value.numRangeResult
+  split
+  · split <;> rfl
+  · rfl
+
+theorem lengthU_unmarked {v r : Value} (h : Value.lengthU v = .ok r) : r.v.isMarked = false := by
+  unfold Value.lengthU at h
+  repeat' (first | split at h | (obtain ⟨_, _, h⟩ := Res.bind_eq_ok.mp h))
+  all_goals (cases h <;> first | rfl | exact numRangeResult_unmarked _ _)
+
+end D12b
+end CtyModel
